@@ -38,6 +38,11 @@ func (oracleC04) Step(x *OCtx, t *Trans) []Violation {
 			x.Wit("C04:good-response-not-slashed")
 		}
 	}
+	for _, p := range L.Problems {
+		if p.Cat == "expiry" {
+			out = append(out, viol("C04", "timed-out-request-is-slashed", kind, p.Disc, p.Detail))
+		}
+	}
 	for p, n := range evs {
 		if wantEvs[p] != n {
 			out = append(out, viol("C04", "one-slash-per-failure", kind, "events",
